@@ -2186,7 +2186,7 @@ class ExpressionEvaluator(Parser):
         elif op == "+":
             return _c_int(int(operand), unsigned)
         elif op == "!":
-            return not operand
+            return np.int64(int(operand) == 0)
         elif op == "~":
             return _c_int(~int(operand), unsigned)
         else:
@@ -2197,10 +2197,11 @@ class ExpressionEvaluator(Parser):
         """
         Apply the specified binary operator: lhs op rhs
         """
+        # Logical operators yield 0 or 1 (as a signed integer).
         if op == "||":
-            return lhs or rhs
+            return np.int64(int(lhs) != 0 or int(rhs) != 0)
         elif op == "&&":
-            return lhs and rhs
+            return np.int64(int(lhs) != 0 and int(rhs) != 0)
 
         # Shifts take the type of the (promoted) left operand.
         if op in ["<<", ">>"]:
@@ -2226,17 +2227,17 @@ class ExpressionEvaluator(Parser):
         elif op == "&":
             return _c_int(a & b, unsigned)
         elif op == "==":
-            return a == b
+            return np.int64(a == b)
         elif op == "!=":
-            return a != b
+            return np.int64(a != b)
         elif op == "<":
-            return a < b
+            return np.int64(a < b)
         elif op == "<=":
-            return a <= b
+            return np.int64(a <= b)
         elif op == ">":
-            return a > b
+            return np.int64(a > b)
         elif op == ">=":
-            return a >= b
+            return np.int64(a >= b)
         elif op == "+":
             return _c_int(a + b, unsigned)
         elif op == "-":
